@@ -559,6 +559,17 @@ impl<'a> GeneratorState<'a> {
                             // byte of the expression is the high byte of its value
                             return Ok(left);
                         }
+                        if let ExprType::AbsoluteX(variable) | ExprType::AbsoluteY(variable) = &left {
+                            // The same for an 8 bits element (its high byte doesn't need the index)
+                            let v = self.compiler_state.get_variable(variable);
+                            if v.var_type == VariableType::CharPtr {
+                                if self.saved_y && !outer_saved_y {
+                                    self.asm_restore_y();
+                                    self.saved_y = false;
+                                }
+                                return Ok(left);
+                            }
+                        }
                     }
                     let borrowed = self.saved_y;
                     let right = self.generate_expr(rhs, pos, high_byte, high_byte)?;
